@@ -707,3 +707,88 @@ pub fn replay_c16(v: &Value, st: &mut Stats, wd: &Watchdog) -> Result<(), String
     st.sample(|| json!({"replayed": {"K": k.text(), "N": n.text(), "E": e.text()}}));
     Ok(())
 }
+
+// =====================================================================
+// C15: API that depends on trait impls (generated programs, one per flavour)
+// =====================================================================
+
+fn c15_api_program(m: &str) -> String {
+    let directed = m.ends_with("digraph");
+    let it = if directed { "iter_out" } else { "iter" };
+    format!(
+        r#"#![allow(unused)]
+use gdsl::{m}::*;
+use std::collections::{{BinaryHeap, BTreeSet}};
+fn main() {{
+    let a = Node::<u32, i64, i64>::new(1, 30);
+    let b = Node::<u32, i64, i64>::new(2, 10);
+    let c = Node::<u32, i64, i64>::new(3, 20);
+    a.connect(&b, 7);
+    a.connect(&c, 3);
+    a.connect(&b, 5);
+    b.connect(&c, 9);
+    let mut es: Vec<Edge<u32, i64, i64>> = a.{it}().collect();
+    let e0 = es[0].clone();
+    let e2 = es[2].clone();
+    println!("eq same-endpoints-different-value {{}}", e0 == e2);
+    println!("ne {{}}", e0 != es[1]);
+    println!("cmp {{:?}} {{:?}}", e0.cmp(&e2), e0.partial_cmp(&es[1]));
+    println!("lt {{}} ge {{}}", e0 < e2, e0 >= e2);
+    es.sort();
+    println!("sorted {{:?}}", es.iter().map(|e| (*e.1.key(), e.2)).collect::<Vec<_>>());
+    let mut h: BinaryHeap<Edge<u32, i64, i64>> = a.{it}().collect();
+    println!("heap-max {{:?}}", h.pop().map(|e| e.2));
+    println!("max {{:?}} min {{:?}}", a.{it}().max().map(|e| e.2), a.{it}().min().map(|e| e.2));
+    let mut ns = vec![a.clone(), b.clone(), c.clone()];
+    ns.sort();
+    println!("nodes-sorted {{:?}}", ns.iter().map(|n| *n.key()).collect::<Vec<_>>());
+    let hn: BinaryHeap<Node<u32, i64, i64>> = ns.iter().cloned().collect();
+    println!("node-heap-max {{:?}}", hn.peek().map(|n| *n.key()));
+    println!("deref {{}} eq-by-key {{}}", *a + 1, a == Node::<u32, i64, i64>::new(1, 99));
+    let rev = e0.reverse();
+    println!("reverse {{}} {{}} {{}} src {{}} dst {{}} val {{}}", rev.0.key(), rev.1.key(), rev.2, e0.source().key(), e0.target().key(), e0.value());
+    let mut g: Graph<u32, i64, i64> = Graph::new();
+    g.insert(a.clone());
+    g.insert(b.clone());
+    g.insert(c.clone());
+    let g2: Graph<u32, i64, i64> = Default::default();
+    println!("graph {{}} {{}} {{}} idx {{}}", g.len(), g2.is_empty(), g.contains(&2), *g[3].value());
+}}
+"#,
+        m = m,
+        it = it
+    )
+}
+
+pub fn c15_api_programs(ctx: &mut Ctx) {
+    let wd = ctx.watchdog.clone();
+    let bins: Vec<(String, String)> = MODS.iter().map(|m| (format!("c15api_{}", m), c15_api_program(m))).collect();
+    let bins_ref: Vec<(&str, String)> = bins.iter().map(|(a, b)| (a.as_str(), b.clone())).collect();
+    let built = match build_and_run("C15", &bins_ref, &wd) {
+        Ok(b) => b,
+        Err(e) => {
+            ctx.inconclusive.push(e);
+            return;
+        }
+    };
+    for (plain, sync) in [("digraph", "sync_digraph"), ("ungraph", "sync_ungraph")] {
+        ctx.stats.eval();
+        ctx.stats.class("api-programs.pairs");
+        let (p, s) = (&built[&format!("c15api_{}", plain)], &built[&format!("c15api_{}", sync)]);
+        let report = |ctx: &mut Ctx, clause: &str, detail: String| {
+            ctx.stats.report(Finding { property: "C15".into(), flavour: format!("{}/{}", plain, sync), clause: clause.into(), signature: format!("{} vs {} | generated API program | {}", plain, sync, clause), case: json!({"kind": "api-program", "pair": plain}), detail });
+        };
+        match (p.ok, s.ok) {
+            (true, true) => {
+                if p.stdout != s.stdout {
+                    let d = p.stdout.lines().zip(s.stdout.lines()).find(|(a, b)| a != b).map(|(a, b)| format!("{}: `{}`  {}: `{}`", plain, a, sync, b)).unwrap_or_default();
+                    report(ctx, "api.output-differs", d);
+                }
+            }
+            (true, false) => report(ctx, "api.program-compiles-only-with-the-plain-flavour", trunc(&s.stderr, 1200)),
+            (false, true) => report(ctx, "api.program-compiles-only-with-the-sync-flavour", trunc(&p.stderr, 1200)),
+            (false, false) => ctx.inconclusive.push(format!("API program compiles with neither {} nor {}: {}", plain, sync, trunc(&p.stderr, 600))),
+        }
+    }
+    ctx.stats.sample_kind("api-program", 1, || json!({"api_program_for": "each flavour", "first_lines": c15_api_program("digraph").lines().skip(3).take(12).collect::<Vec<_>>()}));
+}
